@@ -390,3 +390,10 @@ package core
 //@   assume-entry !privileged(ctx)
 //@ func (*IndexedState).Delete
 //@   assume-entry !privileged(ctx)
+
+// ---- C11: shared state in core --------------------------------------------------------------
+//@ guard Location.control by Location.RWMutex
+//@ guard Location.ReadOnly by Location.RWMutex
+//@ guard MemStorage.locToPairs by MemStorage.Mutex
+//@ func (*MemStorage).loc
+//@   requires[C11.memstorage_loc_needs_lock] heldW(s.Mutex)
